@@ -661,54 +661,152 @@ def hostile(rng, quick=True):
 
 
 SWEEP_VALUES = [bytes.fromhex(x) for x in ('00000000', 'f8ffffff', 'fffffff8', '00001000', '00100000', 'ffffffff')]
+# structured values: small counts, powers of two, multiples of 128 / 512 / 4096, 2^k - 128, 2^k - 512, 2^k - 4096
+SWEEP_STRUCTURED = [2, 128, 512, 4096, 0x10000, 0x1000000, 0x80000000, 0xFFFFFF80, 0xFFFFFE00, 0xFFFFF000, 0xFFF80, 0x7FFFFE00]
+# (first field, second field) of two adjacent 4-byte fields: count x size products and their mirror images
+SWEEP_PAIRS = [(128, 4096), (4096, 128), (128, 0x100000), (0x100000, 128), (0xFFFFFFFF, 0xFFFFFF80), (0xFFFFFF80, 0xFFFFFFFF),
+               (0x10000, 0x10000), (2, 0x80000000), (0x80000000, 2)]
+
+
+def _enc(v, order):
+    return struct.pack('<I' if order == 'le' else '>I', v)
 
 
 class SweepBase:
     """a clean image split at the point where a long tail can be inserted (head + tail + foot) and the
-    byte ranges of its header structures, as (part, start, end)"""
+    byte ranges of its header structures, as (part, start, end).  `ext` are the ranges of length / count /
+    offset carrying structures (always swept with the structured values and the adjacent-field pairs)."""
 
-    def __init__(self, fmt, name, head, foot, ranges):
+    def __init__(self, fmt, name, head, foot, ranges, ext=(), order='both'):
         self.fmt, self.name, self.head, self.foot, self.ranges = fmt, name, head, foot, ranges
+        self.ext, self.order = list(ext), order
 
-    def fields(self):
-        """every 4-byte-aligned field of the header structures x every sweep value"""
+    def fields(self, structured_everywhere=False):
+        """(part, offset, bytes): every 4-byte-aligned field of the header structures x every sweep value; the
+        structured values and the pairs of adjacent fields on the `ext` ranges (everywhere when asked to)"""
+        orders = ('le', 'be') if self.order == 'both' else (self.order,)
         for part, a, b in self.ranges:
             for off in range(a, b - 3, 4):
                 for v in SWEEP_VALUES:
                     yield part, off, v
+        for part, a, b in (self.ranges if structured_everywhere else self.ext):
+            for off in range(a, b - 3, 4):
+                for o in orders:
+                    for v in SWEEP_STRUCTURED:
+                        e = _enc(v, o)
+                        if e not in SWEEP_VALUES:
+                            yield part, off, e
+                    if off + 8 <= b:
+                        for x, y in SWEEP_PAIRS:
+                            yield part, off, _enc(x, o) + _enc(y, o)
 
     def stream(self, field, tail_len, tail_byte=0x5a):
         head, foot = self.head, self.foot
         if field is not None:
             part, off, v = field
             if part == 'head':
-                head = head[:off] + v + head[off + 4:]
+                head = head[:off] + v + head[off + len(v):]
             else:
-                foot = foot[:off] + v + foot[off + 4:]
+                foot = foot[:off] + v + foot[off + len(v):]
         return head + bytes([tail_byte]) * tail_len + foot
 
 
+def _put(buf, off, b):
+    buf[off:off + len(b)] = b
+
+
+def follow_on_images():
+    """{format: (name, bytes, ext ranges, byte order)}: a plausible instance of the well-known optional
+    structures that follow the part of the layout the inspector reads today (written from the format
+    specifications, with ordinary values); the sweep then makes every field of them hostile"""
+    out = {}
+    # GPT: protective MBR, GPT header at LBA 1 (UEFI 5.3.2), partition entry array at LBA 2
+    mbr = images.gpt()[0][:512]
+    hdr = bytearray(512)
+    _put(hdr, 0, b'EFI PART' + struct.pack('<IIIIQQQQ', 0x00010000, 92, 0x12345678, 0, 1, 0xFFFF, 34, 0xFFDE))
+    _put(hdr, 56, bytes(range(1, 17)) + struct.pack('<QIII', 2, 128, 128, 0x9abcdef0))
+    ents = bytearray(128 * 128)
+    _put(ents, 0, bytes(range(0x20, 0x30)) + bytes(range(0x30, 0x40)) + struct.pack('<QQQ', 34, 0x1000, 0) + 'root'.encode('utf-16-le'))
+    out['gpt'] = ('gpt+header+entries', mbr + bytes(hdr) + bytes(ents), [(512, 604), (1024, 1024 + 128)], 'le')
+    # VHD dynamic disk: footer copy, dynamic disk header ('cxsparse') at 512, block allocation table at 1536
+    f = bytearray(images.vhd()[0][:512])
+    _put(f, 8, struct.pack('>IIQ', 2, 0x00010000, 512))
+    _put(f, 48, struct.pack('>QHBBI', 5 * K * K, 10, 16, 63, 3))
+    dyn = bytearray(1024)
+    _put(dyn, 0, b'cxsparse' + struct.pack('>QQIII', U64, 1536, 0x00010000, 16, 0x200000))
+    out['vhd'] = ('vhd-dynamic', bytes(f) + bytes(dyn) + b'\xff' * 64 + bytes(448), [(8, 64), (512, 576), (1536, 1600)], 'be')
+    # qcow2 v3: L1 / refcount / snapshot table fields, header_length, header extensions, the tables themselves
+    q = bytearray(images.qcow2(version=3, header_length=112, refcount_order=4, total=8 * K)[0])
+    _put(q, 36, struct.pack('>IQQIIQ', 4, 4096, 2048, 1, 0, 0))
+    _put(q, 112, struct.pack('>II', 0xE2792ACA, 5) + b'qcow2\0\0\0' + struct.pack('>II', 0x6803F857, 48) + bytes(48)
+         + struct.pack('>II', 0, 0))
+    _put(q, 2048, struct.pack('>Q', 6144))
+    _put(q, 4096, struct.pack('>QQQQ', 1 << 63 | 0x10000, 0, 0, 0))
+    out['qcow2'] = ('qcow2-v3-tables', bytes(q), [(32, 112), (112, 192), (2048, 2064), (4096, 4128)], 'be')
+    # VDI: header fields after the signature, block map
+    v = bytearray(images.vdi()[0][:512]) + bytearray(b'\xff' * 28 + bytes(484))
+    _put(v, 0x44, struct.pack('<IIII', 0x00010001, 0x190, 1, 0))
+    _put(v, 0x154, struct.pack('<II', 512, 4096))
+    _put(v, 0x178, struct.pack('<IIII', 1 << 20, 0, 7, 0))
+    out['vdi'] = ('vdi-blockmap', bytes(v), [(0x44, 0x58), (0x150, 0x190), (512, 544)], 'le')
+    # LUKS1: key-bytes, digest iterations, the eight key slots (active, iterations, salt, offset, stripes)
+    l = bytearray(images.luks(body_len=0)[0])
+    _put(l, 108, struct.pack('>I', 32))
+    _put(l, 164, struct.pack('>I', 1000))
+    for i in range(8):
+        _put(l, 208 + 48 * i, struct.pack('>II', 0x00AC71F3 if i == 0 else 0x0000DEAD, 2000) + bytes(32) + struct.pack('>II', 8 + 256 * i, 4000))
+    out['luks'] = ('luks-keyslots', bytes(l), [(104, 112), (164, 168), (208, 592)], 'be')
+    # ISO 9660: path table size / locations, root directory record; terminator, path tables, root directory
+    pvd = bytearray(images.iso(total=34 * K)[0])
+    o = 32 * K
+    _put(pvd, o + 132, struct.pack('<I', 10) + struct.pack('>I', 10) + struct.pack('<II', 18, 0) + struct.pack('>II', 19, 0))
+    _put(pvd, o + 156, bytes([34, 0]) + struct.pack('<I', 20) + struct.pack('>I', 20) + struct.pack('<I', 2048) + struct.pack('>I', 2048)
+         + bytes(7) + bytes([2, 0, 0]) + struct.pack('<H', 1) + struct.pack('>H', 1) + bytes([1, 0]))
+    term = bytearray(2048)
+    _put(term, 0, b'\xffCD001\x01')
+    pt_l = bytearray(2048)
+    _put(pt_l, 0, bytes([1, 0]) + struct.pack('<IH', 20, 1) + b'\0\0')
+    pt_m = bytearray(2048)
+    _put(pt_m, 0, bytes([1, 0]) + struct.pack('>IH', 20, 1) + b'\0\0')
+    root = bytearray(2048)
+    _put(root, 0, bytes(pvd[o + 156:o + 190]))
+    out['iso'] = ('iso-pathtables', bytes(pvd) + bytes(term) + bytes(pt_l) + bytes(pt_m) + bytes(root),
+                  [(o + 80, o + 88), (o + 128, o + 190), (36 * K, 36 * K + 16), (40 * K, 40 * K + 34)], 'both')
+    return out
+
+
 def sweep_bases(fmt):
+    bases = []
     if fmt == 'vhdx':
         kw = dict(meta_off=256 * K, item_off=192, tail=0, nreg=2, nmeta=5)
         d, _ = images.vhdx(**kw)
-        return [SweepBase(fmt, 'vhdx', d, b'', [('head', 0, 512), ('head', H, H + 16 + 32 * 2),
-                                               ('head', 256 * K, 256 * K + 32 + 32 * 5), ('head', 256 * K + 192, 256 * K + 200)])]
-    if fmt == 'vmdk':
+        tables = [('head', H, H + 16 + 32 * 2), ('head', 256 * K, 256 * K + 32 + 32 * 5), ('head', 256 * K + 192, 256 * K + 200)]
+        bases.append(SweepBase(fmt, 'vhdx', d, b'', [('head', 0, 512)] + tables, ext=tables, order='le'))
+    elif fmt == 'vmdk':
         f, _ = images.vmdk(footer=True, body=0)
         n, _ = images.vmdk(footer=False, body=0)
-        return [SweepBase(fmt, 'vmdk-footer', f[:-1536], f[-1536:], [('head', 0, 512), ('foot', 0, 1536)]),
-                SweepBase(fmt, 'vmdk', n, b'', [('head', 0, 512)])]
-    if fmt == 'iso':
+        bases.append(SweepBase(fmt, 'vmdk-footer', f[:-1536], f[-1536:], [('head', 0, 512), ('foot', 0, 1536)],
+                               ext=[('head', 0, 80), ('foot', 0, 16), ('foot', 512, 592), ('foot', 1024, 1040)], order='le'))
+        bases.append(SweepBase(fmt, 'vmdk', n, b'', [('head', 0, 512)], ext=[('head', 0, 80)], order='le'))
+    elif fmt == 'iso':
         d, _ = images.iso(total=34 * K)
-        return [SweepBase(fmt, 'iso', d, b'', [('head', 0, 512), ('head', 32 * K, 34 * K)])]
-    if fmt == 'luks':
+        bases.append(SweepBase(fmt, 'iso', d, b'', [('head', 0, 512), ('head', 32 * K, 34 * K)], ext=[('head', 32 * K, 32 * K + 190)]))
+    elif fmt == 'luks':
         d, _ = images.luks(body_len=0)
-        return [SweepBase(fmt, 'luks', d, b'', [('head', 0, 592)])]
-    if fmt == 'raw':
-        return [SweepBase(fmt, 'raw', bytes(512), b'', [('head', 0, 512)])]
-    d, _ = images.BUILDERS[fmt]()
-    return [SweepBase(fmt, fmt, d[:512], b'', [('head', 0, 512)])]
+        bases.append(SweepBase(fmt, 'luks', d, b'', [('head', 0, 592)], ext=[('head', 0, 8), ('head', 104, 112)], order='be'))
+    elif fmt == 'raw':
+        bases.append(SweepBase(fmt, 'raw', bytes(512), b'', [('head', 0, 512)]))
+    else:
+        d, _ = images.BUILDERS[fmt]()
+        ext = {'qcow2': [('head', 0, 112)], 'vhd': [('head', 0, 64)], 'vdi': [('head', 0x40, 0x58), ('head', 0x150, 0x190)],
+               'gpt': [('head', 440, 512)], 'qed': [('head', 0, 64)]}.get(fmt, [])
+        bases.append(SweepBase(fmt, fmt, d[:512], b'', [('head', 0, 512)], ext=ext))
+    fo = follow_on_images().get(fmt)
+    if fo:
+        name, data, ranges, order = fo
+        rs = [('head', a, b) for a, b in ranges]
+        bases.append(SweepBase(fmt, name, data, b'', rs, ext=rs, order=order))
+    return bases
 
 
 VOLUME_IDS = [b'CD001', b'BEA01', b'BOOT2', b'CDW02', b'NSR02', b'NSR03', b'TEA01']     # ISO 9660 / ECMA-167 2/9
